@@ -17,7 +17,8 @@ import (
 // nothing older than a fixed window of recent slots"): after the auction for
 // slot S nothing from more than two epochs before S is left.
 func VerifC20_BidCacheBounded() {
-	s := c09Service(&c09Strategy{})
+	// the auction has a winner or not (relays down, bids below the minimum ...): its result is cached either way
+	s := c09Service(&c09Strategy{winners: []bool{vnd.Bool("auction-has-a-winner")}})
 	slot := vnd.U64("slot")
 	vnd.Assume(slot < 1<<40)
 	n := vnd.IntRange("cached-slots", 0, 3)
